@@ -44,6 +44,7 @@ def main(argv=None):
     ctx = common.Ctx(prop, args.tier, seed, level=getattr(mod, "LEVEL", "proof"))
     try:
         if args.replay:
+            ctx.evidence_suffix = ".replay"      # a replay must not clobber the evidence of the last full run
             data = json.load(open(args.replay))
             if data.get("kind") == "no-failing-input-found":
                 # nothing concrete to replay: re-run the whole check
